@@ -3,6 +3,7 @@
 # unit -> properties it serves by default (clause-level tags `//[C10,C13]` override)
 UNIT_PROPS = {
     "crdt": ["C22"],
+    "service_time": ["C29"],
 }
 
 # vx unit -> kani harness used to look for a concrete failing input when a Verus obligation fails
@@ -15,5 +16,12 @@ PROPS = {
         "technique": "Verus contracts on the extracted radicle-crdt merge functions: merge == join spec; ACI lemmas per impl (trait proof obligations)",
         "explanation": "Trait Semilattice carries ghost join_v/lawful and three law_* proof obligations; every impl's real merge body is verified to equal join_v over the abstract view, and every impl must prove idempotence, commutativity, associativity of its join_v.",
         "not_decided": "GMap::insert, GMap::merge, GSet::merge bodies use BTreeMap entry/into_iter APIs outside vstd: their contracts are assumed by Verus (external_body).",
+    },
+    "C29": {
+        "vx": ["service_time"],
+        "kx": [],
+        "technique": "Verus postcondition on the extracted Service::timestamp (returned > every earlier one, for any clock value) + inductive history lemma over that contract",
+        "explanation": "Service::timestamp and the real Timestamp Add/Sub/From/Deref impls are verified: the returned timestamp equals the new last_timestamp, is strictly greater than the previous last_timestamp and >= the clock, for any clock value (no monotonicity assumed). lemma_strictly_increasing lifts the per-call contract to any history of calls interleaved with arbitrary clock writes.",
+        "not_decided": "Precondition last_timestamp < u64::MAX (saturating add stalls at 2^64-1 ms). That every announcement constructor uses the value just returned by timestamp() is checked in unit service (call sites), not here. localtime::LocalTime::as_millis assumed to return the stored millisecond count.",
     },
 }
